@@ -4,8 +4,9 @@ import json
 import os
 import sys
 
-sys.path.insert(0, os.path.dirname(os.path.dirname(os.path.abspath(__file__))))
-sys.path.insert(0, os.environ.get('PYSMI_REPO', '/repo'))
+if __name__ == '__main__':
+    sys.path.insert(0, os.path.dirname(os.path.dirname(os.path.abspath(__file__))))
+    sys.path.insert(0, os.environ.get('PYSMI_REPO', '/repo'))
 
 
 def status_view(st):
